@@ -246,6 +246,29 @@ func (a *argv) refineKey(key any, b *ssa.BasicBlock) int {
 			best = lb
 		}
 	}
+	// a validating helper: err == nil of H(..., v, ...) where every success return of H
+	// has established len(param) >= k
+	for _, c := range a.conditions(b) {
+		ev, nonNil, ok := isErrNilTest(c)
+		if !ok || nonNil {
+			continue
+		}
+		for _, call := range errSources(a.p, ev) {
+			o := core.CalleeObj(call)
+			h := a.p.ByObj[o]
+			if h == nil || h.SSA == nil {
+				continue
+			}
+			for i, arg := range call.Call.Args {
+				if i >= len(h.SSA.Params) || !isArgvType(arg.Type()) || a.canon(arg) != key {
+					continue
+				}
+				if lb := a.ensures(h.SSA, h.SSA.Params[i]); lb > best {
+					best = lb
+				}
+			}
+		}
+	}
 	// len >= best and len != best  =>  len >= best+1
 	for changed := true; changed; {
 		changed = false
